@@ -161,6 +161,15 @@ def run_driver(exe, scenarios, timeout=600, env=None, threads=1, mpi=0):
     return recs, p.returncode, p.stderr
 
 
+def sanitizer_summary(err):
+    """one line: kind of sanitizer report and the first frames inside pomerol"""
+    m = re.search(r"ERROR: AddressSanitizer: (\S+)", err) or re.search(r"(runtime error: [^\n]*)", err)
+    if not m:
+        return None
+    frames = re.findall(r"#\d+ 0x[0-9a-f]+ in ((?:Pomerol|pMPI)::[^\n(]*)", err)
+    return "SANITIZER %s in %s" % (m.group(1), " <- ".join(frames[:3]) if frames else "?")
+
+
 def run_driver_resilient(exe, scenarios, timeout=600, env=None, threads=1, max_restarts=3000):
     """Runs all scenarios; when the driver dies (crash, sanitizer abort, hang) the scenario it died in is recorded
     and the run continues with the scenarios after it. Returns (records without Done lines, {id: stderr tail})."""
@@ -174,7 +183,7 @@ def run_driver_resilient(exe, scenarios, timeout=600, env=None, threads=1, max_r
         if len(done) >= len(todo):
             break
         bad = todo[len(done)]
-        crashed[bad.get("id")] = "rc=%s %s" % (rc, err[-1500:])
+        crashed[bad.get("id")] = "rc=%s %s" % (rc, sanitizer_summary(err) or err[-1500:])
         todo = todo[len(done) + 1:]
         restarts += 1
     if todo and restarts > max_restarts:
